@@ -145,7 +145,7 @@ func runPhase(t *testing.T, sc *Scenario, tasks [][]Call, faults, trivial bool, 
 				return
 			}
 			impls = tp.Impls
-			h, cl, whc, err := tp.New(typedHandler(tp.Impls), typedNewError, typedFill, tr, typedMiddleware, secondMiddleware)
+			h, cl, whc, err := tp.New(typedHandler(tp.Impls), typedNewError, typedFill, tr, SimErrorHandler, typedMiddleware, secondMiddleware)
 			if err != nil {
 				res.trouble = err.Error()
 				return
@@ -157,7 +157,7 @@ func runPhase(t *testing.T, sc *Scenario, tasks [][]Call, faults, trivial bool, 
 				res.trouble = "unknown corpus package " + sc.Pkg
 				return
 			}
-			h, err := newServer(recordingMiddleware, secondMiddleware)
+			h, err := newServer(SimErrorHandler, recordingMiddleware, secondMiddleware)
 			if err != nil {
 				res.trouble = err.Error()
 				return
